@@ -66,7 +66,10 @@ def rollout(case):
     pre = hashlib.sha1()
     nsteps = T if run < 2 else min(T, 50)
     for t in range(1, nsteps + 1):
-      a = rs.uniform(-1, 1, size=(B, act_size)) if kid == 1 else rs.choice([-1.0, 1.0], size=(B, act_size))
+      if kid == 1:
+        a = rs.uniform(-1, 1, size=(B, act_size))
+      elif t <= 60 or (t - 61) % 60 == 0:       # bang-bang: a fresh corner every step at first, then held for 60 steps
+        a = rs.choice([-1.0, 1.0], size=(B, act_size))
       a = a.astype(np.float32)
       pre.update(a.tobytes())
       try:
@@ -82,21 +85,42 @@ def rollout(case):
       evs.append({'ev': 'step', 'key': kid, 't': t, 'act_ok': act_ok, 'done': f['done'], 'obs_ok': f['obs_ok'],
                   'finite': f['finite'], 'unit': f['unit'], 'digest': digest(state),
                   'prefix': ids.setdefault('p' + pre.hexdigest(), len(ids) + 1)})
+  # purity under eager, un-vmapped use: two roll-outs from the SAME reset state object must coincide and must not alter it
+  if case.get('eager'):
+    try:
+      e2 = envs.create(name, episode_length=4, auto_reset=True, backend=backend)
+      s0 = e2.reset(jax.random.PRNGKey(seed))
+      steps0 = np.asarray(s0.info['steps']).copy()
+      seqs = []
+      for _ in range(2):
+        st, seq = s0, []
+        for t in range(6):
+          st = e2.step(st, jp.ones(act_size) * (0.3 if t % 2 else -0.3))
+          seq.append((np.asarray(st.obs).tobytes(), float(st.done)))
+        seqs.append(seq)
+      pure = int(seqs[0] == seqs[1] and np.array_equal(np.asarray(s0.info['steps']), steps0))
+      evs.append({'ev': 'purity', 'pure': pure})
+      if not pure and detail is None:
+        detail = f'eager: two roll-outs from one reset state differ or altered it: dones {[d for _, d in seqs[0]]} vs {[d for _, d in seqs[1]]}, steps before/after {steps0.tolist()} / {np.asarray(s0.info["steps"]).tolist()}'
+    except Exception as e:  # pylint: disable=broad-except
+      evs.append({'ev': 'purity', 'pure': 0})
+      detail = detail or f'eager purity check raised: {type(e).__name__}: {str(e)[:160]}'
   return {'events': evs, 'err': detail}
 
 
-KEYS = ['ev', 'env', 'backend', 'result', 'key', 'done', 'obs_ok', 'finite', 'unit', 'digest', 't', 'act_ok', 'prefix']
+KEYS = ['ev', 'env', 'backend', 'result', 'key', 'done', 'obs_ok', 'finite', 'unit', 'digest', 't', 'act_ok', 'prefix', 'pure']
 
 
 def run(ctx):
   q = ctx.quick
   ctx.rule = ('every registered physics environment x {generalized, spring, positional}: construct, wrap with training.wrap, '
-              f'reset and step batches of {8 if q else 64} for {200 if q else 1000} steps under uniform and bang-bang actions, '
+              f'reset and step batches of {32 if q else 128} for {200 if q else 1000} steps under uniform and bang-bang (per-step and held) actions, '
               'then re-run the first rollout; the recorded events (shape/finite/unit-quaternion flags, done, state digests) '
               'are validated by the contract automaton. non-trivial = a supported pair that ran its rollouts.')
   ctx.assumptions = ['default float32; unit quaternion tolerance 1e-4', 'determinism is checked by bit-identical state digests '
                      'of a repeated rollout in the same process', 'support matrix: swimmer is generalized-only']
-  cases = [{'env': e, 'backend': b, 'batch': 8 if q else 64, 'steps': 200 if q else 1000, 'seed': ctx.seed}
+  cases = [{'env': e, 'backend': b, 'batch': 32 if q else 128, 'steps': 200 if q else 1000, 'seed': ctx.seed,
+            'eager': (e, b) in (('inverted_pendulum', 'positional'), ('reacher', 'spring'))}
            for e in ENVS for b in BACKENDS]
   traces, errs = [], []
   for case, r in par.run('harness.drivers.c16', 'rollout', cases, x64=False, procs=11):
